@@ -9,7 +9,7 @@ PKG = "server/upstream"
 TEST = "TestVerifHarness_Lifecycle"
 COQ_TARGETS = ["Run/Run_Lifecycle.vo"]
 META = {
-    "text": "Theorems (Properties/C16.v) over the Gallina model of the upstream handler life cycle (upstreamRoute's addSession/AddConn and its deferred RemoveConn/removeSession/sess.Close/conn.Close, LoadBalancedManager.AddConn/RemoveConn, cluster Add/RemoveLocalEndpoint, proxy-side RemoveConn after ErrGone, shedSessions, Shutdown, token deadline), for ALL event sequences: registered = open minus those dropped after go-away, sessions = open, advertised count = number registered (refuted for the pinned RemoveConn, D1), nothing left once nothing is open, a deadline closes at T and never before, no deadline when disconnect-on-expiry is disabled. The model is tied to server/upstream by running generated scenarios on a REAL upstream.Server (real manager, cluster state, JWT verifier, clients from /repo/client or raw gorilla+yamux) and comparing balancers, Endpoints(), advertised counts and the session table with the model after every step inside Coq; an independent python monitor evaluates the property on the observations.",
+    "text": "C16_closed_listener_never_reconnects / C16_accept_ctx_variant_refuted (NodeLoss/Connect.v): the client's AcceptWithContext + Upstream.connect under every schedule of session loss, Close/Shutdown and dial outcomes never establish a session by a dial started after the listener was closed (harness: listeners closed while a TCP front blacks the server out). Theorems (Properties/C16.v) over the Gallina model of the upstream handler life cycle (upstreamRoute's addSession/AddConn and its deferred RemoveConn/removeSession/sess.Close/conn.Close, LoadBalancedManager.AddConn/RemoveConn, cluster Add/RemoveLocalEndpoint, proxy-side RemoveConn after ErrGone, shedSessions, Shutdown, token deadline), for ALL event sequences: registered = open minus those dropped after go-away, sessions = open, advertised count = number registered (refuted for the pinned RemoveConn, D1), nothing left once nothing is open, a deadline closes at T and never before, no deadline when disconnect-on-expiry is disabled. The model is tied to server/upstream by running generated scenarios on a REAL upstream.Server (real manager, cluster state, JWT verifier, clients from /repo/client or raw gorilla+yamux) and comparing balancers, Endpoints(), advertised counts and the session table with the model after every step inside Coq; an independent python monitor evaluates the property on the observations.",
     "note": "Proof of the bookkeeping; partial for the runtime: that every real exit path of the handler unwinds (goroutine exit, yamux/websocket errors, context timers) and the wall clock are observed by the harness only. Trusted: Coq kernel+VM, the hand-written model, the Go harness/translation.",
     "technique": "Coq proof (invariant over all event lists of a per-connection state machine) + model/implementation correspondence by differential replay on real servers and clients",
 }
@@ -56,8 +56,8 @@ def O(op, u=None, **kw):
 def corpus():
     cs = []
 
-    def add(cid, ops, auth=False, disable=False, tenant=False, front=False):
-        cs.append({"id": cid, "auth": auth, "disable": disable, "tenant": tenant, "front": front, "ops": ops})
+    def add(cid, ops, auth=False, disable=False, tenant=False, front=False, via_load=""):
+        cs.append({"id": cid, "auth": auth, "disable": disable, "tenant": tenant, "front": front, "via_load": via_load, "ops": ops})
     three = [conn("u1", "e1"), conn("u2", "e1", "raw"), conn("u3", "ep-2")]
     # every way to end, on a shared endpoint
     add("c-client-shutdown", three + [O("client_shutdown", "u1"), O("client_shutdown", "u2"), O("client_shutdown", "u3")])
@@ -113,6 +113,13 @@ def corpus():
     # the same through a tenant's verifier (x-piko-tenant-id): the token's expiry must survive MultiTenantVerifier
     add("c-expiry-tenant", [conn("u1", "e1", tok="exp", ahead=400), conn("u2", "e1", "raw", tok="exp", ahead=900), conn("u3", "e1", tok="noexp"),
                             O("await_expiry", "u1"), O("await_expiry", "u2"), O("client_shutdown", "u3")], auth=True, tenant=True)
+    # the same through the real auth.Config.Load (what server.NewServer does), with a plain secret and with a JWKS key set:
+    # "unless disconnect-on-expiry is disabled" must survive every way of configuring the keys
+    for vl in ("hmac", "jwks"):
+        add("c-expiry-disabled-load-" + vl, [conn("u1", "e1", tok="exp", ahead=400), conn("u2", "e1", "raw", tok="expired"),
+                                            O("await_expiry", "u1"), O("client_shutdown", "u1")], auth=True, disable=True, via_load=vl)
+        add("c-expiry-load-" + vl, [conn("u1", "e1", tok="exp", ahead=400), conn("u2", "ep-2", tok="noexp"), O("await_expiry", "u1"),
+                                   O("client_shutdown", "u2")], auth=True, via_load=vl)
     add("c-expiry-tenant-disabled", [conn("u1", "e1", tok="exp", ahead=400), O("await_expiry", "u1"), O("client_shutdown", "u1")],
         auth=True, disable=True, tenant=True)
     add("c-shutdown-far-expiry", [conn("u1", "e1", tok="exp", ahead=60000), conn("u2", "e1", "raw", tok="exp", ahead=60000),
@@ -120,6 +127,13 @@ def corpus():
     add("c-shed-far-expiry", [conn("u1", "e1", tok="exp", ahead=60000), conn("u2", "e1", tok="exp", ahead=60000), O("shed", n=2),
                               conn("u3", "e1", tok="exp", ahead=60000), O("client_shutdown", "u3")], auth=True)
     return cs
+
+
+def silent_drop_case(ms=45000):
+    """thorough tier (it takes 45 s): the network path of an idle upstream goes silent - nothing delivered, nothing closed. "Network
+    drop" is one of the endings the property names: the server's own probing has to notice and deregister the upstream"""
+    return {"id": "c-silent-drop", "auth": False, "disable": False, "tenant": False, "front": True, "via_load": "",
+            "ops": [conn("u1", "e1"), conn("u2", "ep-2", "raw"), O("blackhole", ms=ms), O("client_shutdown", "u2"), O("client_shutdown", "u1")]}
 
 
 def gen_case(rng, cid):
@@ -190,7 +204,8 @@ def gen_case(rng, cid):
                     if rng.random() < 0.5:
                         ops.append(O("errgone", u))
                 ops.append(O("client_shutdown", u))
-    return {"id": cid, "auth": auth, "disable": disable, "tenant": auth and rng.random() < 0.3, "ops": ops}
+    return {"id": cid, "auth": auth, "disable": disable, "tenant": auth and rng.random() < 0.3,
+            "via_load": rng.choice(["", "", "hmac", "jwks"]) if auth else "", "ops": ops}
 
 
 def mid_op(rng, live, conns):
@@ -241,7 +256,7 @@ def monitor(case, out, stats=None):
     for i, (op, ob) in enumerate(zip(case["ops"], out["obs"])):
         k = op["op"]
         u = op.get("u")
-        if k == "blackout":
+        if k in ("blackout", "blackhole"):
             cut_alive |= set(ob.get("dropped") or [])
         elif k == "client_shutdown":
             cut_alive.discard(u)
@@ -259,7 +274,7 @@ def monitor(case, out, stats=None):
         elif k in ("client_shutdown", "drop"):
             if u in info and ob["res"] == "ok" and info[u]["open"]:
                 info[u].update(open=False, reg=False)
-        elif k == "blackout":
+        elif k in ("blackout", "blackhole"):
             for x in ob.get("dropped") or []:
                 if x in info and info[x]["open"]:
                     info[x].update(open=False, reg=False)
@@ -381,7 +396,7 @@ def events_of(case, op, ob, known, prev_closed):
     elif k == "drop":
         if u in known and ob["res"] == "ok":
             ev.append("EvNetDrop %s" % cs(u))
-    elif k == "blackout":
+    elif k in ("blackout", "blackhole"):
         ev += ["EvNetDrop %s" % cs(x) for x in (ob.get("dropped") or []) if x in known]
     elif k == "goaway":
         if u in known and ob["res"] == "ok":
@@ -531,6 +546,8 @@ def run(ctx):
     quick = ctx["tier"] == "quick"
     ngen = 38 if quick else 500
     cases = corpus() + [gen_case(rng, "g%d" % i) for i in range(ngen)]
+    if not quick:
+        cases.append(silent_drop_case())
     binary = build_harness(PKG)
     t0 = time.time()
     outs = run_cases(binary, wd, cases, parallel=16 if quick else 24)
